@@ -53,11 +53,20 @@ def files_worker(job):
     out = []
     base = Path(tempfile.mkdtemp(prefix="c19_", dir=os.environ.get("VERIF_SCRATCH", None)))
     try:
+        m_prev = None
         for k, cfg in enumerate(job):
             rec = {"k": k, "geom": cfg["geom"][0]}
             try:
                 with ghelib.quiet():
-                    m = ghelib.build_manager(cfg)
+                    if cfg.get("reuse_manager") and m_prev is not None:
+                        # the next scenario on the SAME manager (every setter called again), results prepared
+                        # with the same labels as before
+                        m = m_prev
+                        ghelib.configure(m, cfg)
+                        rec["reused_manager"] = True
+                    else:
+                        m = ghelib.build_manager(cfg)
+                    m_prev = m
                     m.find_design()
                     if cfg.get("hourly_after"):
                         # the workflow design.py recommends: size with the hybrid time step, then validate hourly
@@ -67,7 +76,13 @@ def files_worker(job):
                     m.prepare_results("p", "n", "a", "i")
                     d = base / f"d{k}"
                     suffix = "" if k % 2 == 0 else f"_run{k}"
+                    if k % 2 == 1:
+                        d.mkdir(parents=True, exist_ok=True)      # an output directory that already exists
+                        rec["preexisting_dir"] = True
                     m.write_output_files(d, suffix)
+                rec["selected"] = [[float(x), float(y)] for x, y in m._search.selected_coordinates]
+                rec["suffix"] = suffix
+                rec["files"] = sorted(str(f.relative_to(d)) for f in d.rglob("*") if f.is_file())
                 ghe = m._search.ghe
                 rec["coords"] = [[float(x), float(y)] for x, y in ghe.gFunction.bore_locations]
                 rec["H"] = float(ghe.bhe.b.H)
@@ -75,7 +90,6 @@ def files_worker(job):
                 rec["curve"] = [[float(a), float(b), float(c)] for a, b, c in zip(g.x, g.y, gb.y)]
                 rec["times"] = [float(t) for t in ghe.times]
                 rec["hp_eft"] = [float(t) for t in ghe.hp_eft]
-                rec["files"] = sorted(f.name for f in d.iterdir())
                 rec["suffix"] = suffix
                 rd = lambda name: list(csv.reader(open(d / f"{name}{suffix}.csv", newline="")))  # noqa: E731
                 rec["loadings"] = rd("Loadings")
@@ -101,7 +115,7 @@ def file_jobs(rng, tier):
         return {"phys": phys, "pipe": "SINGLEUTUBE", "loads": loads, "months": months, "max_eft": 35.0, "min_eft": 5.0, "max_h": 135.0,
                 "min_h": 60.0, "flow": phys["flow"], "geom": geom}
     n = 1 if tier == "quick" else 4
-    return [[cfg("NEARSQUARE", rng.choice([0.02, 0.05]), 12), {**cfg("RECTANGLE", rng.choice([0.08, 0.15]), 24), "hourly_after": True}, cfg("NEARSQUARE", 0.1, 12)] for _ in range(n)]
+    return [[cfg("NEARSQUARE", rng.choice([0.02, 0.05]), 12), {**cfg("RECTANGLE", rng.choice([0.08, 0.15]), 24), "hourly_after": True}, {**cfg("NEARSQUARE", 0.1, 12), "reuse_manager": True}] for _ in range(n)]
 
 
 def run(ctx: core.Ctx):
@@ -254,20 +268,24 @@ def run(ctx: core.Ctx):
     for job, recs in zip(jobs, core.pool_map(files_worker, jobs)):
         for cfg, rec in zip(job, recs):
             ctx.case(("files", rec["k"], rec["geom"], len(rec.get("coords", []))), True, {"written_files_of": rec["geom"], "boreholes": len(rec.get("coords", []))})
-            ctx.count("written-file designs")
-            if "error" in rec:
+            ctx.count("written-file designs" + (":on-the-previous-design's-manager" if rec.get("reused_manager") else ""))
+            if "error" in rec and "files" not in rec:
                 ctx.broken.append(f"written-files: design {rec['k']} ({rec['geom']}) could not be produced: {rec['error']}")
                 continue
             where = {"design_sequence": [c["geom"][0] for c in job[: rec["k"] + 1]], "k": rec["k"], "suffix": rec["suffix"], "geom": cfg["geom"], "scale_of_atlanta_loads": cfg["loads"][4000] / (ghelib.atlanta_loads()[4000] or 1)}
             want_files = sorted(f"{n}{rec['suffix']}.{e}" for n, e in (("BoreFieldData", "csv"), ("Gfunction", "csv"), ("Loadings", "csv"), ("SimulationSummary", "json"), ("SimulationSummary", "txt"), ("TimeDependentValues", "csv")))
             if rec["files"] != want_files:
-                ctx.finding("files-written", f"write_output_files wrote {rec['files']}, expected {want_files}", where)
+                ctx.finding("files-written", f"write_output_files into {'an existing' if rec.get('preexisting_dir') else 'a new'} directory left {rec['files']} there, expected {want_files}", where)
+            if "error" in rec:
+                continue
             lo = rec["loadings"]
             ok = len(lo) == 8761 and all([int(r[0]), int(r[1]), int(r[2]), int(r[3])] == [*oracle_label(i), i] and float(r[4]) == cfg["loads"][i] for i, r in enumerate(lo[1:]))
             if not ok:
                 i = next((i for i, r in enumerate(lo[1:]) if i >= 8760 or [int(r[0]), int(r[1]), int(r[2]), int(r[3])] != [*oracle_label(i), i] or float(r[4]) != cfg["loads"][i]), None)
                 ctx.finding("loadings-file", f"Loadings{rec['suffix']}.csv of design {rec['k']} has {len(lo) - 1} rows; row {i} is {lo[i + 1] if i is not None and i + 1 < len(lo) else None}, the input load there is {cfg['loads'][i] if i is not None and i < 8760 else None} labelled {oracle_label(i) if i is not None and i < 8760 else None}", where)
             bf = [[float(a), float(b)] for a, b in rec["borefield"][1:]]
+            if rec.get("selected") is not None and rec["selected"] != rec["coords"]:
+                ctx.finding("returned-field-not-the-selected-one", f"design {rec['k']} ({rec['geom']}): the search selected {len(rec['selected'])} coordinates, the exchanger it returns (and the bore-field table) has {len(rec['coords'])}", where)
             if bf != rec["coords"] or rec["borefield"][0] != ["x", "y"]:
                 ctx.finding("borefield-file", f"BoreFieldData{rec['suffix']}.csv of design {rec['k']} lists {len(bf)} rows that are not the {len(rec['coords'])} selected coordinates in order", {**where, "file_rows": bf[:5], "selected": rec["coords"][:5]})
             gf = [[float(v) for v in r] for r in rec["gfunction"][1:]]
